@@ -985,6 +985,10 @@ int run_check(const CheckArgs &a)
 		for (auto &c : kh.second)
 			dprintf(g_out_fd, "  seen as class %s\n", c.c_str());
 	}
+	// every listed (open) finding of this property is printed, also when this run did not reach it
+	for (auto &k : known)
+		if (k.status != "fixed" && k.property == P.id && !known_hits.count(k.what))
+			dprintf(g_out_fd, "KNOWN-FINDING: property=%s %s [listed in known_findings.json; not reached by this run]\n", P.id.c_str(), k.what.c_str());
 	if (nondet) {
 		fprintf(stderr, "DETERMINISM: %lu re-checked runs produced a different event-log hash\n", (unsigned long)nondet);
 		gate_failures += nondet;
